@@ -250,6 +250,24 @@ def run(ctx: Ctx) -> int:
             ctx.violation({"invariant": "ScheduleIndependentHierarchy", "origin": {"family": "realpackage", "shape": p.name},
                            "package": str(p), "schedule_seeds": [k1, k2], "diff": dict(list(diff.items())[:5]),
                            "key": f"realpkg:{p.name}"})
+    # ---- hand-written projects using features outside the statement grammar, every admissible schedule (no model conformance)
+    from .. import handwritten
+    hw_runs = 0
+    for case in handwritten.cases():
+        outcomes = handwritten.explore(case, ctx.scratch)
+        n_sched = sum(len(v) for v in outcomes.values())
+        hw_runs += n_sched
+        ctx.traces += n_sched
+        if len(outcomes) > 1:
+            ks = list(outcomes)
+            a, b2 = json.loads(ks[0]), json.loads(ks[1])
+            diff = {k: [a.get(k), b2.get(k)] for k in sorted(set(a) | set(b2)) if a.get(k) != b2.get(k)}
+            ctx.violation({"invariant": "ScheduleIndependentHierarchy" if case["cyclic"] else "ScheduleIndependent",
+                           "origin": {"family": "handwritten", "shape": case["name"]}, "handwritten": case["name"],
+                           "schedules": [outcomes[ks[0]][0], outcomes[ks[1]][0]], "diff": dict(list(diff.items())[:6]),
+                           "key": "handwritten:" + case["name"]})
+    ctx.extra["handwritten_projects"] = len(handwritten.cases())
+    ctx.extra["handwritten_builds"] = hw_runs
     ctx.extra["real_packages"] = real_pk
     ctx.extra["schedules_per_real_package"] = K
     # ---- negative control: the comparison notices a changed base
@@ -279,7 +297,11 @@ def replay(ctx: Ctx, path: str) -> int:
     w = json.load(open(path))
     o = w["origin"]
     bad = False
-    if w.get("invariant") == "AdmissibleDiscoveryOrder":
+    if w.get("handwritten"):
+        from .. import handwritten
+        case = next(c for c in handwritten.cases() if c["name"] == w["handwritten"])
+        bad = len(handwritten.explore(case, ctx.scratch)) > 1
+    elif w.get("invariant") == "AdmissibleDiscoveryOrder":
         from pydoctor import model
         root = realise_tree(w["tree"], ctx.scratch / "replaytree")
         system = model.System()
